@@ -24,6 +24,7 @@
 import XMT.RouteLemmas
 import XMT.RouteOutbound
 import XMT.RouteProxyLemmas
+import XMT.RouteProxyRegister
 import XMT.RouteWitness
 import XMT.RouteChan
 namespace XMT.Props.C15
@@ -194,6 +195,16 @@ theorem proxy_receive_own_partial (hash : ID → Nat) (parent : ID) (t : Proxy.P
     (hmd : hasFlag n.flags flagMultiDevice = false) :
     Proxy.AllOwn (Proxy.receiveDown hash parent t n).2.1 :=
   Proxy.receiveDown_own hash parent t n hmd
+
+/-- **Proxy.subsRegister** (the server asked the client that runs the proxy to register again): every
+proxied client's queue receives exactly one re-registration request and that request names the
+client whose queue it is — for every table and whatever Job numbers are drawn. -/
+theorem proxy_reregistration_own (t : Proxy.PTbl) (job : Nat → Nat) :
+    Proxy.AllOwn (Proxy.subsRegister t job).2 ∧
+    (Proxy.subsRegister t job).1.map (fun e => (e.1, e.2.id)) = t.map (fun e => (e.1, e.2.id)) ∧
+    ∀ e ∈ (Proxy.subsRegister t job).1, ∃ e0 ∈ t, e.1 = e0.1 ∧ e.2.id = e0.2.id ∧
+      e.2.q = e0.2.q ++ [{ dev := e.2.id, pid := svRegister, job := job e.1 }] :=
+  ⟨Proxy.subsRegister_own t job, (Proxy.subsRegister_each t job).1, (Proxy.subsRegister_each t job).2⟩
 
 /-- **Proxy.talk / Proxy.talkSub**: seen-marking, registration and removal requests only ever
 concern the client entry of the device the packet names. -/
